@@ -95,6 +95,8 @@ class Link(object):
             if timeout:
                 self.clock.advance(timeout)
             raise self.exc.TcpTimeoutException('Connecting timed out (simulated)')
+        if self.connects > 1 and self.cfg.get('heal_on_reconnect'):
+            self.faults.clear()      # the reconnect reaches a healthy peer over a healthy link
         self.device.new_session()
         self.cur = None
         self.off = 0
@@ -107,6 +109,9 @@ class Link(object):
         self.closes += 1
         self.log.ev('close', actor)
         self.connected = False
+        if self.closes in (self.cfg.get('close_faults') or ()):
+            self.faults_fired.append((-self.closes, 'closefail', 'c'))
+            raise OSError(5, 'close failed (injected)')
 
     # -- per-call bookkeeping ------------------------------------------------------------
     def begin(self, op, n, timeout, actor):
